@@ -453,8 +453,8 @@ def group(stmt):
         group_identifier,
         group_order,
         group_typecasts,
-        group_tzcasts,
         group_typed_literal,
+        group_tzcasts,
         group_operator,
         group_comparison,
         group_as,
